@@ -64,7 +64,9 @@ class Context(object):
         LOG.append(dict(cdb=task.cdb, dir=task.dir, xferlen=task.xferlen, lun=lun,
                         out_len=len(data_out), in_len=len(data_in)))
         if DEVICE is not None:
-            status, sense, fill = DEVICE(task.cdb, data_out, data_in)
+            # data-out reaches the target only for direction WRITE, and no more than the expected transfer length
+            sent = bytes(data_out[:task.xferlen]) if task.dir == SCSI_XFER_WRITE else b""
+            status, sense, fill = DEVICE(task.cdb, sent, data_in)
         else:
             status, sense, fill = SCRIPT.pop(0) if SCRIPT else (0, None, None)
         if fill is not None and task.dir == SCSI_XFER_READ:
